@@ -31,6 +31,9 @@ func C14lints(p *load.Program, run *report.Run) {
 	files := map[string]bool{"circuit/parser.go": true}
 	lints.ShortRead(p, run, []string{"circuit"}, files)
 	lints.UnboundedIndexStore(p, run, []string{"circuit"}, files)
+	run.Rule("decoder-divisor-guard", "in the circuit-file parsers and the functions of the package they call, a division by a decoded (non-constant) integer is dominated by a test that it is not zero")
+	lints.DivisorGuard(p, run, "circuit", []string{"ParseMPCLC", "ParseBristol"})
+	run.Floor("input-divisions", 1)
 	run.Floor("read-sites", 1)
 	run.Floor("counter-index-stores", 2)
 }
@@ -70,4 +73,17 @@ func C10take(p *load.Program, run *report.Run) {
 	run.Rule("take-remainder", "a loop `for acc < total` that accumulates `acc += take(...)` asks each take for the remainder total-acc, so the units consumed from the source depend on total only, not on how full the source was")
 	lints.RemainingRequest(p, run, []string{"gmw"})
 	run.Floor("take-loops", 1)
+}
+
+// C19shift: the overlapping-copy rule over the mesh code (peer lists are kept ordered by id).
+func C19shift(p *load.Program, run *report.Run) {
+	run.Rule("overlap-shift", "a loop that moves the elements of a sequence within itself (S[i+k] = S[i]) runs against the direction of the move; checked in p2p and gmw, with a built-in positive and negative example")
+	lints.OverlapShift(p, run, []string{"p2p", "gmw"})
+	run.Floor("overlap-examples", 2)
+}
+
+// C20rounding: the rounding discipline over the multiplication gadgets (element sizes in bytes).
+func C20rounding(p *load.Program, run *report.Run) {
+	run.Rule("rounding-discipline", "every division/shift of a count in vole and bmr is a ceil idiom, a checked exact division, a quotient/remainder pair, or has its remainder handled (a byte size of floor(bits/8) drops the top bits of an element)")
+	lints.Rounding(p, run, []string{"vole", "bmr"}, nil, map[string]string{})
 }
